@@ -14,6 +14,8 @@
      shmem_allgather / shmem_prefix / shmem_memcpy ... r   the array AS READ BY RANK r afterwards
      rank_order P c = c 0 ++ ... ++ c (P-1);   prefix_spec wr P n c = (0, s0, s0+s1, ...) with every sum wrapped by wr
      write_start comms f r     return value of sc_shmem_write_start on rank r
+     dup_comms nc / comms_dup  the attachment a communicator obtained by MPI_Comm_dup inherits (copy callback)
+     l_attach / l_detach / l_dup / l_free_dup   life cycle of the attached communicators (live ids, attribute)
      pstep / prun              the lock/barrier protocol of the window flavours on one node, one event at a time *)
 From Coq Require Import ZArith Arith List Bool Sorting.Sorted.
 From ScV Require Import Base.CInt C14.ShmemModel C14.GridProofs C14.ShmemProofs C14.ProtocolProofs.
@@ -183,6 +185,46 @@ Theorem C14_protocol_rounds_do_not_overlap : forall n v es s i s', 0 < n ->
 Proof. exact synced_rounds_visible. Qed.
 Print Assumptions C14_protocol_rounds_do_not_overlap.
 
+(* ---- MPI_Comm_dup of a communicator with attachment (attribute copy callback sc_mpi_node_comms_copy) --------------- *)
+(* the duplicate carries the SAME grid: same member lists in the same slots, hence the same position of every rank;
+   for P = nn * ppn that position is again (r mod ppn, ppn, r / ppn, nn) *)
+Theorem C14_dup_inherits_grid : forall nc r,
+  grid_position (dup_comms nc) r = grid_position nc r /\ intra (dup_comms nc) = intra nc /\ inter (dup_comms nc) = inter nc.
+Proof. exact dup_grid_position. Qed.
+Print Assumptions C14_dup_inherits_grid.
+
+Theorem C14_dup_inherits_grid_explicit : forall nn ppn, 0 < ppn -> forall r, r < nn * ppn ->
+  comms_dup (comms_explicit nn ppn) r = Some (dup_comms (attach_explicit (nn * ppn) ppn r)) /\
+  grid_position (dup_comms (attach_explicit (nn * ppn) ppn r)) r = (r mod ppn, ppn, r / ppn, nn).
+Proof. exact dup_grid_explicit. Qed.
+Print Assumptions C14_dup_inherits_grid_explicit.
+
+(* the shared arrays and the write grants on the duplicate are the correct ones as well *)
+Theorem C14_dup_results : forall nn ppn wr count, 0 < ppn -> forall contrib,
+  (forall q, q < nn * ppn -> length (contrib q) = count) ->
+  (forall q x, q < nn * ppn -> In x (contrib q) -> wr x = x) ->
+  forall f r, r < nn * ppn ->
+  shmem_allgather (nn * ppn) (comms_dup (comms_explicit nn ppn)) f contrib r = rank_order (nn * ppn) contrib /\
+  shmem_prefix wr (nn * ppn) (comms_dup (comms_explicit nn ppn)) count f contrib r = prefix_spec wr (nn * ppn) count contrib /\
+  write_start (comms_dup (comms_explicit nn ppn)) f r = (if is_shared f then (r mod ppn =? 0) else true).
+Proof. exact dup_results. Qed.
+Print Assumptions C14_dup_results.
+
+(* life cycle: the duplicate owns two new communicators copied slot by slot; freeing the duplicate frees exactly those
+   and leaves the original's attachment alive *)
+Theorem C14_dup_then_free : forall s a b, (forall c, In c (live s) -> c < next_id s) -> attr s = Some (a, b) ->
+  let '(s1, d) := l_dup s in
+  d = Some (next_id s, S (next_id s)) /\ dup_sources s = Some (a, b) /\
+  live s1 = S (next_id s) :: next_id s :: live s /\ attr s1 = Some (a, b) /\
+  ~ In (next_id s) (live s) /\ ~ In (S (next_id s)) (live s) /\
+  live (l_free_dup d s1) = live s /\ attr (l_free_dup d s1) = Some (a, b).
+Proof. exact dup_then_free. Qed.
+Print Assumptions C14_dup_then_free.
+
+Theorem C14_dup_unattached : forall s, attr s = None -> l_dup s = (s, None).
+Proof. exact dup_unattached. Qed.
+Print Assumptions C14_dup_unattached.
+
 (* ---- recorded findings: the unguarded statements are false of the faithful model ------------------------------------ *)
 (* F-C14a: equally sized nodes that are not contiguous in rank order (round robin), window flavour: node-major order *)
 Theorem C14_window_allgather_roundrobin_refuted :
@@ -227,3 +269,11 @@ Example C14_ex_synced_rounds :
                               WS 0; WR 0 22%Z; WS 1; WE_arrive 0; WE_arrive 1; WE_leave 0; WE_leave 1])
   = Some (2, 2, 2, 22%Z).
 Proof. exact synced_two_rounds. Qed.
+
+Example C14_ex_dup_life :
+  let s0 := mk_ls [] 0 None in
+  let s1 := l_attach true true s0 in
+  let '(s2, d) := l_dup s1 in
+  live s1 = [1; 0] /\ l_get s1 = Some (0, 1) /\ d = Some (2, 3) /\ live s2 = [3; 2; 1; 0]
+  /\ live (l_free_dup d s2) = [1; 0] /\ live (l_detach (l_free_dup d s2)) = [].
+Proof. vm_compute. repeat split. Qed.
